@@ -6,10 +6,12 @@ import (
 	"os"
 	"os/exec"
 	"regexp"
+	"runtime"
 	"sort"
 	"strconv"
 	"strings"
 	"testing"
+	"time"
 
 	"pgregory.net/rapid"
 
@@ -287,15 +289,17 @@ type effect struct {
 }
 
 type checker struct {
-	rec      *ev.Recorder
-	w        *world
-	fns      []fnSpec
-	byName   map[string]fnSpec
-	declared map[string]int // by fetch expression: mask of declared flags (inferred)
-	refMsg   map[string]string
-	effects  map[string]*effect
-	kfPopen  bool
-	runs     int
+	rec       *ev.Recorder
+	w         *world
+	fns       []fnSpec
+	byName    map[string]fnSpec
+	declared  map[string]int // by fetch expression: mask of declared flags (inferred)
+	refMsg    map[string]string
+	effects   map[string]*effect
+	kfPopen   bool
+	kfFileArg bool
+	runs      int
+	nsamp     int
 }
 
 func (ck *checker) run(c c08Case) *obs {
@@ -543,15 +547,29 @@ func (ck *checker) judge(c c08Case, o *obs) verdict {
 }
 
 func (ck *checker) isKF(c c08Case) string {
-	if !ck.kfPopen {
-		return ""
-	}
 	for _, k := range c.Calls {
-		if ck.popenIosafe(k, c.Flags) {
+		if ck.kfPopen && ck.popenIosafe(k, c.Flags) {
 			return "C08-popen-iosafe"
+		}
+		if ck.kfFileArg && fileArgNonFile(k) {
+			return "C08-file-arg-nonfile-userdata-panic"
 		}
 	}
 	return ""
+}
+
+// recogniser of C08-file-arg-nonfile-userdata-panic: a function of the io
+// library that expects a file as its first argument is given the context
+// object (the only non-file userdata of the pools) there.
+func fileArgNonFile(k c08Call) bool {
+	switch k.Fn {
+	case "io.close", "io.input", "io.output", "io.type":
+	default:
+		if !strings.HasPrefix(k.Fn, "filemt.") {
+			return false
+		}
+	}
+	return firstArg(k.Args) == "CTX"
 }
 
 // recogniser of C08-popen-iosafe: io.popen with a command string in a context
@@ -583,6 +601,8 @@ func (ck *checker) usable(spell string, flags int) bool {
 // and replay). Returns kind and message of a violation, or "".
 func (ck *checker) check(c c08Case) (kind, msg string) {
 	rec := ck.rec
+	t0 := time.Now()
+	defer func() { tick("check-total", t0) }()
 	for _, k := range c.Calls {
 		if r := unsafeCombo(k.Fn, k.Args, k.Spell); r != "" {
 			rec.Discard("excluded: " + r)
@@ -630,6 +650,7 @@ func (ck *checker) check(c c08Case) (kind, msg string) {
 		return v.kind, v.msg
 	}
 	// non-trivial: some call's tuple is effectful when unrestricted
+	nontrivial := false
 	if c.Flags != 0 {
 		nt := false
 		for _, k := range c.Calls {
@@ -638,6 +659,7 @@ func (ck *checker) check(c c08Case) (kind, msg string) {
 				nt = true
 			}
 		}
+		nontrivial = nt
 		if nt {
 			rec.NonTrivial(c.key())
 			rec.Class("nontrivial/" + map[bool]string{true: "refused", false: "allowed"}[nref > 0] + map[bool]string{true: "+iosafe", false: ""}[c.Flags&flagIO != 0])
@@ -684,7 +706,8 @@ func (ck *checker) check(c c08Case) (kind, msg string) {
 		}
 		ck.refMsg[fmt.Sprintf("%d|%s|%s", c.Flags, k.Fetch, k.Args)] = ref
 	}
-	if ck.runs%97 == 0 || len(c.Calls) > 1 && ck.runs%13 == 0 {
+	ck.nsamp++
+	if ck.nsamp%211 == 0 || len(c.Calls) > 1 && ck.nsamp%17 == 0 || nontrivial && ck.nsamp%29 == 0 {
 		rec.Sample(map[string]any{"flags": flagSet(c.Flags), "calls": c.Calls, "refused": v.refused, "events": trimEvents(o.Events)})
 	}
 	return "", ""
@@ -809,6 +832,10 @@ func TestC08(t *testing.T) {
 	rec.Assume("os.getenv returning the process environment under iosafe is counted (class note/...) but not judged: the property's list (files, directories, processes, plugins, network) does not name the environment")
 	rec.Assume("os.exit is never called in-process: its refusal is probed in child processes for the 15 non-empty flag sets; golib.import is only called with arguments that cannot reach the Go toolchain; debug.sethook only without arguments; stdin is /dev/null")
 
+	// one case runs at a time (coroutines hand over control); more Ps only add
+	// garbage-collector and scheduler overhead to the thousands of short runs
+	runtime.GOMAXPROCS(2)
+	tStart := time.Now()
 	w, err := newWorld()
 	if err != nil {
 		t.Fatalf("cannot create the sentinel world: %v", err)
@@ -861,6 +888,11 @@ func TestC08(t *testing.T) {
 		return ck.judge(c, ck.run(c)).msg != ""
 	})
 
+	ck.kfFileArg = CheckKnown(rec, "C08-file-arg-nonfile-userdata-panic", func() bool {
+		c := single(ck.byName["io.close"], 0, `CTX`, "direct")
+		return ck.judge(c, ck.run(c)).msg != ""
+	})
+
 	nviol := 0
 	report := func(kind string, c c08Case, msg string) {
 		if msg == "" {
@@ -901,12 +933,12 @@ func TestC08(t *testing.T) {
 		}
 	}
 	item := 0
-	// quick tier: every spelling under {}, {iosafe} and all four flags; the
-	// single-flag contexts other than iosafe only with the pcall and direct spellings
+	// quick tier: every spelling under {} (the calibration) and {iosafe}; the
+	// other single-flag contexts and all-four only with the pcall and direct spellings
 	grid := func(f fnSpec, args string, spells []string, subsets []int) {
 		for _, sp := range spells {
 			for _, s := range subsets {
-				if !rec.Thorough() && s != 0 && s != flagIO && s != flagAll && sp != "pcall" && sp != "direct" {
+				if !rec.Thorough() && s != 0 && s != flagIO && sp != "pcall" && sp != "direct" {
 					continue
 				}
 				kind, msg := ck.check(single(f, s, args, sp))
@@ -919,6 +951,10 @@ func TestC08(t *testing.T) {
 		fewSubsets = []int{flagIO, flagAll}
 	}
 
+	phase := func(name string) {
+		fmt.Printf("[c08 shard %d] %6.1fs runs=%d phase %s\n", rec.Shard(), time.Since(tStart).Seconds(), ck.runs, name)
+	}
+	phase("1 no-arg grid")
 	// 1. no-argument calls: every function x subsets x every spelling
 	for _, f := range callable {
 		item++
@@ -928,6 +964,7 @@ func TestC08(t *testing.T) {
 		grid(f, "", allSpellings, subsets)
 	}
 
+	phase("2 effectful grid")
 	// 2. io family x effectful tuples; all spellings where the tuple is effectful
 	for _, f := range callable {
 		if !ioFamily.MatchString(f.Name) {
@@ -953,6 +990,7 @@ func TestC08(t *testing.T) {
 		}
 	}
 
+	phase("3 edge grid")
 	// 3. all functions x edge tuples (thorough); other families x effectful tuples
 	if rec.Thorough() {
 		edges := edgeTuples()
@@ -976,6 +1014,7 @@ func TestC08(t *testing.T) {
 		}
 	}
 
+	phase("4 os.exit")
 	// 4. os.exit, in child processes, for the 15 non-empty flag sets
 	if rec.Shard() == 0 {
 		exitDeclared := 0
@@ -1000,6 +1039,8 @@ func TestC08(t *testing.T) {
 		return
 	}
 
+	phase("5 rapid")
+	defer phase("end")
 	// 5. random single calls and sequences
 	var ioFns, seqFns []fnSpec
 	for _, f := range callable {
@@ -1038,6 +1079,10 @@ func TestC08(t *testing.T) {
 			}
 			args = first + rest
 		}
+		if ck.kfFileArg && fileArgNonFile(c08Call{Fn: f.Name, Args: args}) {
+			// construction around the open finding: the granted handle instead of the context object
+			args = "H" + args[len("CTX"):]
+		}
 		return args
 	}
 	genFn := func(t *rapid.T, pool1, pool2 []fnSpec, flags int) fnSpec {
@@ -1061,7 +1106,7 @@ func TestC08(t *testing.T) {
 			seqIO = append(seqIO, f)
 		}
 	}
-	RunRapid(rec, "C08/random-single", rec.Pick(1500, 12000), 0, func(t *rapid.T) {
+	RunRapid(rec, "C08/random-single", rec.Pick(800, 12000), 0, func(t *rapid.T) {
 		flags := rapid.IntRange(0, 15).Draw(t, "flags")
 		f := genFn(t, ioFns, callable, flags)
 		c := single(f, flags, safeArgs(t, f), rapid.SampledFrom(allSpellings).Draw(t, "spelling"))
@@ -1070,7 +1115,7 @@ func TestC08(t *testing.T) {
 		}
 	})
 	seqSpells := allSpellings[1:] // not "direct": a raising direct call ends the body
-	RunRapid(rec, "C08/random-sequence", rec.Pick(700, 6000), 1, func(t *rapid.T) {
+	RunRapid(rec, "C08/random-sequence", rec.Pick(300, 6000), 1, func(t *rapid.T) {
 		flags := rapid.IntRange(1, 15).Draw(t, "flags")
 		n := rapid.IntRange(2, 5).Draw(t, "ncalls")
 		c := c08Case{Flags: flags}
